@@ -548,6 +548,90 @@ class Case:
             ctx.violation('transaction does not verify after bumpfee', rep)
 
 
+def wallet_bump(case):
+    """WalletTransaction.bumpfee on a created, signed, not yet broadcast transaction whose change cannot pay the extra fee:
+    an input is added from the wallet (model: walletBump)"""
+    from bitcoinlib.wallets import WalletError
+    from bitcoinlib.transactions import TransactionError
+    ctx, rng, w = case.ctx, case.rng, case.w
+    if w.multisig:
+        return
+    pool = sorted(case.unspent(1).items(), key=lambda kv: -kv[1][1])
+    if len(pool) < 2:
+        return
+    STATE['fee'] = 5000
+    STATE['sizes'], STATE['selects'], STATE['randint'], STATE['parts'] = [], [], [], None
+    # spend one chosen output almost completely: the change is small
+    (k0, v0) = pool[0] if rng.random() < 0.6 else rng.choice(pool)     # pool is sorted by confirmations: the first row is what utxos() lists first
+    if v0[0] < 20000:
+        return
+    change = rng.choice([0, 1500, 3000])
+    try:
+        t = w.transaction_create([(EXT['p2wpkh'][0], v0[0] - 1000 - change)], input_arr=[(k0[0], k0[1])], fee=1000, replace_by_fee=True, random_output_order=False)
+        t.sign()
+    except WalletError:
+        return
+    outs0 = [(o.value, bool(o.change), o.address) for o in t.outputs]
+    ins0 = [(i.prev_txid.hex(), i.output_n_int) for i in t.inputs]
+    old_fee, vs = t.fee, t.vsize
+    extra = max(vs, rng.choice([vs, 2000, 5000, 20000]))
+    rows = w.utxos(min_confirms=1)
+    rep = {'op': 'wallet-bumpfee', 'kind': case.kind, 'wseed': case.wseed, 'old_fee': old_fee, 'vsize': vs, 'extra_fee': extra,
+           'outputs_before': [(v, c) for v, c, _ in outs0], 'inputs_before': [case.utxos[k][0] for k in ins0]}
+    err = None
+    try:
+        t.bumpfee(extra_fee=extra)
+    except (TransactionError, WalletError) as e:
+        err = str(e)
+    line = 'txc_wbump %d %d %d %s %s %s' % (old_fee, vs, extra, ','.join(str(case.oid(*k)) for k in ins0),
+                                            ','.join('%d:%s' % (v, 'c' if c else 'r') for v, c, _ in outs0),
+                                            ','.join('%d-%d-%d' % (case.oid(u['txid'], u['output_n']), u['value'], u['confirmations']) for u in rows) or '-')
+    model = run_driver([line])[0].split(' | ')[0]
+    ctx.evals += 1
+    ctx.count('wallet-bumpfee:' + ('refused' if err else ('extra-input' if len(t.inputs) > len(ins0) else 'from-change')))
+    if err:
+        if model.startswith('ok'):
+            ctx.violation('WalletTransaction.bumpfee refused where the Lean transcription does not', dict(rep, line=line, model=model, error=err[:100]))
+        return
+    ins1 = [(i.prev_txid.hex(), i.output_n_int) for i in t.inputs]
+    outs1 = [(o.value, bool(o.change), o.address) for o in t.outputs]
+    py = 'ok ins=%s outs=%s' % (','.join(str(case.oid(*k)) for k in ins1), ','.join('%d:%s' % (v, 'c' if c else 'r') for v, c, _ in outs1))
+    if py != model:
+        # the added input may be another row with the same (confirmations, value)
+        m = re.match(r'ok ins=(\S+) outs=(\S+)', model)
+        same = False
+        if m and m.group(2) == py.split(' outs=')[1]:
+            mv = sorted(case.val_conf_of_id(int(x)) for x in m.group(1).split(','))
+            pv = sorted((case.utxos[k][0], case.utxos[k][1]) for k in ins1)
+            same = mv == pv
+        if not same:
+            ctx.violation('WalletTransaction.bumpfee disagrees with the Lean transcription', dict(rep, line=line, model=model, observed=py))
+    bad = []
+    if len(set(ins1)) != len(ins1):
+        bad.append('an input is used twice')
+    for k in ins1:
+        u = case.utxos.get(k)
+        if u is None or u[2]:
+            bad.append('an input is not an unspent output of the wallet')
+    tin = sum(case.utxos[k][0] for k in set(ins1) if k in case.utxos)
+    tout = sum(v for v, _, _ in outs1)
+    if tin != tout + t.fee:
+        bad.append('distinct inputs %d != outputs %d + reported fee %d' % (tin, tout, t.fee))
+    if t.fee < old_fee + extra:
+        bad.append('fee %d below old fee + extra fee %d' % (t.fee, old_fee + extra))
+    if [(v, a) for v, c, a in outs1 if not c] != [(v, a) for v, c, a in outs0 if not c]:
+        bad.append('a recipient output changed')
+    raw = t.raw_hex()
+    p = run_driver(['tx_parse ' + raw])[0].split(' | ')[0]
+    mi = re.search(r' in=\[([^\]]*)\]', p)
+    if mi:
+        pins = [(x.split(':')[0], int(x.split(':')[1])) for x in mi.group(1).split(';') if x]
+        if len(set(pins)) != len(pins):
+            bad.append('the raw transaction spends an outpoint twice')
+    for b in bad:
+        ctx.violation('after WalletTransaction.bumpfee the transaction violates C07: ' + b, dict(rep, observed={'fee': t.fee, 'inputs': ins1 and [case.utxos.get(k, [None])[0] for k in ins1], 'outputs': [(v, c) for v, c, _ in outs1]}))
+
+
 def run(ctx):
     install(ctx)
     kinds = ['hd-segwit', 'hd-legacy', 'hd-p2sh-segwit', 'single', 'ms-segwit', 'ms-legacy']
@@ -566,6 +650,8 @@ def run(ctx):
             c.one_request()
         c.insufficient_check()
         c.sweep_and_send()
+        for _ in range(4):
+            wallet_bump(c)
     ctx.assumptions += ['the service layer is an in-process fake (fee estimates are scripted); random.randint and numpy.random.dirichlet are replaced by '
                         'recorded draws inside bitcoinlib.wallets for the duration of the check',
                         'rows with equal (confirmations, value) may be returned by the database in either order: selections that differ only in such ties count as equal']
